@@ -521,7 +521,57 @@ func c12Directed(c *core.Ctx) bool {
 			return false
 		}
 	}
-	c.Count("directed_callback_scenarios", 24)
+	// (i) a Preprocess declared over string in front of a pointer schema, the key missing: nil is not a string - one issue, neither the
+	// function nor the wrapped schema runs
+	{
+		fnCalls := 0
+		var d struct{ Nick *string }
+		m := z.Struct(z.Schema{"nick": z.Preprocess(func(s string, ctx z.Ctx) (string, error) { fnCalls++; return s, nil }, z.Ptr(z.String().Min(3)).NotNil())}).Parse(map[string]any{}, &d)
+		c.Eval(1)
+		if fnCalls != 0 || len(m["nick"]) != 1 || m["nick"][0].Code != "coerce" {
+			c.Violation("preprocess-type-mismatch-not-reported", map[string]any{"schema": "{nick: Preprocess(func(s string) string, Ptr(String().Min(3)).NotNil())}", "input": "{} (key missing)", "function_calls": fnCalls, "issues": fmt.Sprint(z.Issues.SanitizeMap(m)), "want": "one coerce issue at nick"})
+			return false
+		}
+	}
+	// (j) the error a transform returns is filed at the node's path, spelled like every other path: keys holding ".[" or "[" stay verbatim
+	{
+		type opt struct {
+			Name string
+		}
+		type cfg struct {
+			Opts opt `zog:"opts.[x]"`
+			Raw  opt `zog:"[raw]"`
+		}
+		boom := errors.New("boom")
+		var d cfg
+		inner := func() *z.StructSchema {
+			return z.Struct(z.Schema{"name": z.String().PostTransform(func(any, z.Ctx) error { return boom })})
+		}
+		m := z.Struct(z.Schema{"opts": inner()}).Parse(map[string]any{"opts.[x]": map[string]any{"name": "n"}}, &d)
+		m2 := z.Struct(z.Schema{"raw": inner()}).Parse(map[string]any{"[raw]": map[string]any{"name": "n"}}, &d)
+		c.Eval(2)
+		if len(m["opts.[x].name"]) != 1 || len(m2["[raw].name"]) != 1 {
+			c.Violation("post-transform-error-path", map[string]any{"schema": "{opts (key \"opts.[x]\"): Struct{name: String().PostTransform(returns an error)}} / the same under key \"[raw]\"", "keys": dKeys(m) + " / " + dKeys(m2), "want": "opts.[x].name / [raw].name"})
+			return false
+		}
+	}
+	// (k) a context value is handed to the callbacks as it is: the map the caller passed, not a copy of it
+	{
+		bag := map[string]any{}
+		var sv string
+		z.String().TestFunc(func(v any, ctx z.Ctx) bool {
+			if b, ok := ctx.Get("bag").(map[string]any); ok {
+				b["seen"] = v
+			}
+			return true
+		}).Parse("x", &sv, z.WithCtxValue("bag", bag))
+		c.Eval(1)
+		if bag["seen"] != "x" {
+			c.Violation("callback-context-values|Parse", map[string]any{"option": "WithCtxValue(bag, map[string]any{})", "observed": "a write the callback made through ctx.Get(bag) did not reach the caller's map", "callers_map": fmt.Sprint(bag)})
+			return false
+		}
+	}
+	c.Count("directed_callback_scenarios", 28)
 	return true
 }
 
